@@ -851,6 +851,15 @@ func (d *driver) publishScript(c *client, id, label string, naudio, nvideo int, 
 	// RTP on every track, tracks started one after the other so that the order in which the
 	// server sees them is the order in which they were added
 	go func() {
+		// nothing is sent before the connection is up: otherwise every track is "started" by then, their first packets leave
+		// together and the server discovers the tracks in an arbitrary order
+		for i := 0; i < 500 && pc.ConnectionState() != webrtc.PeerConnectionStateConnected; i++ {
+			select {
+			case <-p.stop:
+				return
+			case <-time.After(10 * time.Millisecond):
+			}
+		}
 		seq := uint16(1)
 		started := 0
 		tick := time.NewTicker(15 * time.Millisecond)
@@ -863,7 +872,7 @@ func (d *driver) publishScript(c *client, id, label string, naudio, nvideo int, 
 			case <-tick.C:
 			}
 			n++
-			if n%4 == 0 && started < len(p.tracks) {
+			if n%5 == 1 && started < len(p.tracks) {
 				started++
 			}
 			for i := 0; i < started; i++ {
